@@ -295,6 +295,11 @@ def run(ctx, replay=None):
                 if got != want and attr_literal_ws(bytes.fromhex(g["ref_doc"])):
                     finding("C19:sign:attr-whitespace-written-literally", "DigestValue %s, digest of the canonical form a conforming parser derives from the emitted document is %s" % (got, want), {"gen": [g]})
                     continue
+                sig_case = next(s for s in sigs if s["id"] == g["sig"])
+                own = (sig_case.get("c14n") or [])[g.get("ref_case", 0)] if g.get("ref_case") is not None else None
+                if got != want and own and not own.get("err") and \
+                        base64.b64encode(hashlib.new(g["hash"], bytes.fromhex(own["out"])).digest()).decode() == got and own["out"] != r:
+                    continue      # the digest is that of relic's own canonical form, whose divergence from the reference is reported by O1
                 if got != want:
                     # the PROPERTY fails: the signed digest is not the digest of the declared canonical form
                     ctx.violation("C19:digest-not-of-declared-canonical-form", "DigestValue %s, digest of the %s canonical form of the referenced content is %s" %
@@ -338,10 +343,10 @@ def run(ctx, replay=None):
         for L in s.get("sig_lens") or []:
             siglen_hist["%s:%d" % (s["key"], L)] = siglen_hist.get("%s:%d" % (s["key"], L), 0) + 1
             if L != want:
-                if s["bits"]:
+                if s["bits"] and L == want - 2:      # r and s both one byte short: what Pack does when the top bytes are zero
                     finding("C19:sigvalue:ecdsa-short:p%d" % s["bits"], "SignatureValue is %d bytes, standard width %d" % (L, want), {"sigs": [light]})
                 else:
-                    ctx.violation("C19:sigvalue:rsa-width", "RSA SignatureValue is %d bytes" % L, {"sigs": [light]}, True)
+                    ctx.violation("C19:sigvalue:width", "SignatureValue is %d bytes, standard width %d" % (L, want), {"sigs": [light]}, True)
         for v in s.get("variants") or []:
             if v["kind"] == "preserve":
                 n_var += 1
@@ -399,7 +404,11 @@ def run(ctx, replay=None):
         want = 2 * ((p["bits"] + 7) // 8)
         if p["kind"] == "real":
             n_real += 1
-            if len(p["packed"]) // 2 != want:
+            L = len(p["packed"]) // 2
+            natural = 2 * ((max(int(p["r"]).bit_length(), int(p["s"]).bit_length()) + 7) // 8)
+            if L != want and not (L < want and L == natural):
+                ctx.violation("C19:pack:width", "Pack() of a real P-%d signature is %d bytes (standard %d, minimal %d)" % (p["bits"], L, want, natural), {"packs": [p]}, True)
+            elif L != want:
                 short[p["bits"]] = short.get(p["bits"], 0) + 1
                 finding("C19:pack:short:p%d" % p["bits"], "Pack() of a real signature is %d bytes, standard width %d (r=%s s=%s)" %
                         (len(p["packed"]) // 2, want, p["r"], p["s"]), {"packs": [p]})
